@@ -182,3 +182,141 @@ REDUCED_LEAVES = {
     typed.LS: [T.lst(T.Str("a"), T.Str("%"))],
     "RX": [T.Str("^a")],
 }
+
+
+# ---------------------------------------------------------------- generic driver (C02, C03)
+class Backend:
+    """adapter: name, cap, defect_models, variants; run(text, cols, variant) -> set(ids) | ('EXC', cls, msg);
+    refusal(exc_tuple) -> True when the exception is a documented library refusal of an unsupported construct"""
+    name = "?"
+    cap = {}
+    defect_models = []
+    variants = [None]
+
+    def run(self, text, cols, variant):
+        raise NotImplementedError
+
+
+_BK = {}
+_EN = {}
+
+
+def _enum(bk, which):
+    key = (bk.name, which)
+    if key not in _EN:
+        sigs = typed.signatures(bk.cap)
+        if which == "reduced":
+            _EN[key] = typed.Enumerator(reduced_sigs(sigs), typed.leaves_for(bk.cap, REDUCED_LEAVES))
+        else:
+            _EN[key] = typed.Enumerator(sigs, typed.leaves_for(bk.cap))
+    return _EN[key]
+
+
+def kw_variants(term):
+    """texts of `term` with keyword case deviations: all upper, all title, each single occurrence upper"""
+    from .refprint import Printer
+    base = Printer().p(term)
+    counter = [0]
+
+    def count(sv):
+        counter[0] += 1
+        return sv
+    Printer(kwcase=count).p(term)
+    n = counter[0]
+    out = []
+    out.append(("kw-upper", Printer(kwcase=str.upper).p(term)))
+    out.append(("kw-title", Printer(kwcase=str.title).p(term)))
+    for i in range(n):
+        c = [0]
+
+        def one(sv, i=i):
+            c[0] += 1
+            return sv.upper() if c[0] - 1 == i else sv
+        out.append(("kw-%d" % i, Printer(kwcase=one).p(term)))
+    return [(n_, t_) for n_, t_ in out if t_ != base]
+
+
+def check_term_generic(acc, bk, term, styles=("min", "full"), kwcase=False):
+    cols = colkey(typed.fields_of(term))
+    acc.count("states")
+    if nontrivial(term, cols):
+        acc.count("nontrivial")
+    texts = []
+    for st in styles:
+        tx = to_odata(term, st)
+        if tx not in [t for _, t in texts]:
+            texts.append((st, tx))
+    results = {}
+    for i, (st, tx) in enumerate(texts):
+        for var in (bk.variants if i == 0 else bk.variants[:1]):
+            got = bk.run(tx, cols, var)
+            results[(st, var)] = got
+            judge(acc, bk.name, term, tx, cols, got, bk.defect_models, {"variant": var, "style": st, "cols": list(cols)})
+    if kwcase:
+        base = results[(texts[0][0], bk.variants[0])]
+        for vname, tx in kw_variants(term):
+            got = bk.run(tx, cols, bk.variants[0])
+            acc.count("executions")
+            acc.count("kwcase_variants")
+            if got != base:
+                acc.violation("%s:kwcase:%s" % (bk.name, opsig(term)), {"text": tx, "term": term, "variant": vname, "base_text": texts[0][1],
+                                                                       "expected": _short(base), "observed": _short(got)})
+    # the entry styles must agree with each other
+    vals = [results[(texts[0][0], v)] for v in bk.variants]
+    if any(v != vals[0] for v in vals[1:]):
+        acc.count("entry_styles_disagree")
+
+
+def _short(x):
+    if isinstance(x, tuple):
+        return list(x)
+    return sorted(x)[:20]
+
+
+def _generic_unit(unit):
+    bname, which, k, si, split, kwcase = unit
+    bk = _BK[bname]
+    acc = Acc()
+    en = _enum(bk, which)
+    for i, term in enumerate(en.apply(en.sigs[si], k, only_split=split)):
+        check_term_generic(acc, bk, term, kwcase=kwcase)
+        if i == 0:
+            acc.sample({"filter": to_odata(term), "layer": "%s k=%d" % (which, k)}, cap=1)
+    return acc
+
+
+def _generic_string_unit(unit):
+    bname, strings = unit
+    bk = _BK[bname]
+    acc = Acc()
+    for sv in strings:
+        for term in string_position_terms(T.Str(sv), bk.cap):
+            check_term_generic(acc, bk, term, styles=("min",))
+    return acc
+
+
+def generic_layer(ctx, bk, which, k, kwcase=False, block=None):
+    _BK[bk.name] = bk
+    en = _enum(bk, which)
+    for j in range(k):
+        for ty in (typed.I, typed.R, typed.S, typed.B, typed.TT, typed.D, typed.BV, typed.TM, "BF"):
+            en.terms(ty, j)
+    if k == 0:
+        n = 0
+        for t in en.terms(typed.B, 0):
+            check_term_generic(ctx, bk, t, kwcase=kwcase)
+            n += 1
+        return n
+    units = [(bk.name, which, k, si, split, kwcase) for si, split in en.work_units(typed.B, k)]
+    if block:
+        units = [u for i, u in enumerate(units) if i % block[1] == block[0]]
+    before = ctx.counts["states"]
+    ctx.pmap(_generic_unit, units)
+    return int(ctx.counts["states"] - before)
+
+
+def generic_strings(ctx, bk, maxlen):
+    _BK[bk.name] = bk
+    strs = sigma_strings(maxlen)
+    ctx.pmap(_generic_string_unit, [(bk.name, strs[i::32]) for i in range(32)])
+    return len(strs)
